@@ -2,6 +2,8 @@
 
 from __future__ import annotations
 
+import os
+
 from hypothesis import strategies as st
 
 from vlib.build import ALPHA, KINDS
@@ -17,11 +19,22 @@ def forest_specs(
     unique: bool = False,
     opts=None,
     min_nodes: int = 0,
+    big=None,
 ):
     """Constructive tree-spec generator.  Sibling labels are distinct by
     construction; with a small alphabet clones (same label under different
     parents, also nested) are frequent.  `unique=True` labels n0, n1, ...
     `opts` is an optional strategy for the per-node opts dict."""
+    # big: None = one forest in BIG_ONE_IN is a big one, False/0 = never, n = one in n; (n, max_width) limits the width
+    big_max = None
+    if isinstance(big, tuple):
+        big, big_max = big
+    if big is None or big is True:
+        big = BIG_ONE_IN
+    if big and int(big) > 1 and os.environ.get("VERIF_TIER") == "thorough":
+        big = int(big) * 3  # 100 times the cases: a third of the share gives 30 times as many big trees
+    if big and BIG_DEFAULT and draw(st.sampled_from([0] * (int(big) - 1) + [1])):
+        return draw(big_specs(alphabet=alphabet, unique=unique, opts=opts, max_w=big_max))
     budget = [draw(st.integers(min_nodes, max_nodes))]
     counter = [0]
 
@@ -56,6 +69,67 @@ def forest_specs(
     return level(1, list(alphabet))
 
 
+# Sizes matter: a child list of more than 16 / 32 / 64 / 128 / 256 entries, a clone group of more than 32 / 64 members
+# or a tree of more than 256 nodes is where a "bulk" or "chunked" code path would start.  One generated forest in
+# BIG_ONE_IN is therefore a big one.  It is expanded deterministically from a handful of drawn parameters (so it
+# costs little entropy and shrinks to the smallest width that still fails).
+BIG_DEFAULT = os.environ.get("VERIF_BIG", "1") != "0"
+BIG_ONE_IN = 20
+BIG_W = [11, 17, 18, 25, 33, 34, 41, 50, 65, 66, 100, 129, 130, 200, 257, 300]
+
+
+@st.composite
+def big_specs(draw, alphabet=ALPHA, unique=False, opts=None, max_w=None):
+    W = draw(st.sampled_from([w for w in BIG_W if max_w is None or w <= max_w]))
+    shape = draw(st.sampled_from(["wide", "wide", "wide-nested", "clones"]))
+    if unique and shape == "clones":
+        shape = "wide"
+    alphabet = list(alphabet)
+    kinds = bool(getattr(opts, "_verif_kinds", False))
+    kpat = draw(st.sampled_from([1, 2, 3])) if kinds else 1
+    # a small ordinary forest that is hung below some of the many siblings (the same labels several times = clones
+    # at low and at high sibling positions)
+    sub = draw(forest_specs(max_nodes=5, max_depth=3, max_width=3, alphabet=alphabet, unique=False, opts=opts, min_nodes=1, big=False))
+    cand = sorted({p for p in (0, 1, 2, 9, 10, 11, W - 33, W - 32, W - 17, W - 2, W - 1, W // 2) if 0 <= p < W})
+    pos = set(draw(st.lists(st.sampled_from(cand), min_size=1, max_size=3)))
+    few_opts = [draw(opts) if opts is not None else None for _ in range(3)]
+    counter = [0]
+
+    def relabel(nodes):
+        out = []
+        for n in nodes:
+            m = [f"s{counter[0]}", None] + [dict(o) for o in n[2:]]
+            counter[0] += 1
+            m[1] = relabel(n[1])
+            out.append(m)
+        return out
+
+    def copy(nodes):
+        return [[n[0], copy(n[1])] + [dict(o) for o in n[2:]] for n in nodes]
+
+    n_alpha = 0 if unique else draw(st.sampled_from([0, 0, min(3, len(alphabet))]))
+    wide = []
+    for i in range(W):
+        label = alphabet[i] if i < n_alpha else f"w{i}"
+        node = [label, []]
+        if shape == "clones" and alphabet:
+            node[1] = [[alphabet[0], []]]
+        if i in pos:
+            node[1] = node[1] + [c for c in (relabel(sub) if unique else copy(sub)) if not node[1] or c[0] != node[1][0][0]]
+        o = {}
+        if kinds and kpat > 1 and i % kpat:
+            o["kind"] = KINDS[i % kpat]
+        if i in pos and few_opts[i % 3]:
+            o.update(few_opts[i % 3])
+        if o:
+            node.append(o)
+        wide.append(node)
+    if shape == "wide-nested":
+        top = [f"s{counter[0]}" if unique else (alphabet[-1] if alphabet else "r"), wide]
+        return [top, ["w_tail", []]]
+    return wide
+
+
 def node_opts(explicit_ids: bool = True, kinds: bool = False, meta: bool = False, fresh: bool = False):
     """Strategy for per-node opts; most nodes get none."""
     fields = {}
@@ -79,7 +153,12 @@ def node_opts(explicit_ids: bool = True, kinds: bool = False, meta: bool = False
                 o[k] = draw(s)
         return o
 
-    return one()
+    s = one()
+    try:
+        s._verif_kinds = bool(kinds)  # big_specs() gives the many siblings mixed kinds
+    except Exception:
+        pass
+    return s
 
 
 def spec_nodes(spec) -> int:
